@@ -129,31 +129,29 @@ example : (specVecdot [2, 1, 3] [4, 3]).map (·.get [1, 2]) =
 /-! ### trace -/
 
 /-- `view::trace(a, offset, axis1, axis2)` = `np.trace` for every rank ≥ 2, every pair of distinct axes (negative
-    spellings included), every offset `0 ≤ offset < extent(axis2)` (non-empty diagonal): the two axes are removed from
-    the shape and `out[rest] = Σ_i a[rest; axis1 = i, axis2 = i + offset]`, `i = 0 … min(n1, n2-offset)-1` in order;
-    every read is inside the operand.  (Model elements are the buffer positions read, `some (row-major offset)`.) -/
+    spellings included) and every offset of either sign with a non-empty diagonal (`-extent(axis1) < offset < extent(axis2)`):
+    the two axes are removed from the shape and
+    `out[rest] = Σ_i a[rest; axis1 = i + max(-offset,0), axis2 = i + max(offset,0)]`,
+    `i = 0 … min(n1 - max(-offset,0), n2 - max(offset,0)) - 1` in order; every read is inside the operand.
+    (Model elements are the buffer positions read, `some (row-major offset)`.)  The model is the repaired
+    `index::diagonal` / `index::shape_diagonal` (fix commits C04-diagonal.negative-offset, C04-diagonal.offset-beyond-extent). -/
 theorem trace_eq_def (s : Shape) (off : Int) (a1 a2 : Int) (ax1 ax2 n1 n2 : Nat)
     (hax1 : normAxis a1 s.length = some ax1) (hax2 : normAxis a2 s.length = some ax2)
     (h12 : ax1 ≠ ax2) (hn1 : s[ax1]? = some n1) (hn2 : s[ax2]? = some n2)
-    (hoff : 0 ≤ off) (hne : off < n2) (hn1pos : 0 < n1) :
+    (hlo : -(n1 : Int) < off) (hhi : off < n2) :
     ∃ r sp, trace s off a1 a2 = some r ∧ specTrace s off ax1 ax2 = some sp ∧ r.shape = sp.shape ∧
       ∀ d, InShape d sp.shape →
         r.get d = (sp.get d).map (fun i => some (computeOffset i (strides s))) ∧ ∀ i ∈ sp.get d, InShape i s :=
-  trace_eq_spec s off a1 a2 ax1 ax2 n1 n2 hax1 hax2 h12 hn1 hn2 hoff hne hn1pos
+  trace_eq_spec s off a1 a2 ax1 ax2 n1 n2 hax1 hax2 h12 hn1 hn2 hlo hhi
 
 example : normAxis (-1) 3 = some 2 ∧ normAxis 0 3 = some 0 ∧ [2, 3, 4][2]? = some 4 ∧ [2, 3, 4][0]? = some 2 := by decide
 example : (specTrace [2, 3, 4] 1 2 0).map (·.shape) = some [3] := by decide
 example : (specTrace [2, 3, 4] 1 2 0).map (·.get [2]) = some [[1, 2, 0]] := by decide
 example : (specTrace [3, 4] 1 0 1).map (·.get []) = some [[0, 1], [1, 2], [2, 3]] := by decide
-
-/-- the unchanged `index::diagonal` puts `i + offset` on axis2 also when the offset is negative (known finding
-    trace.negative-offset): for a (2,3,3) operand, offset -1 over axes (1,2) the first element is read out of range
-    (`none`) and the second element silently sums the buffer positions 8, 12 where NumPy sums a[1,1,0], a[1,2,1] = 12, 16 -/
-theorem trace_negative_offset_counterexample :
-    (trace [2, 3, 3] (-1) 1 2).map (fun r => (r.shape, r.get [0], r.get [1])) =
-      some ([2], [none, some 3], [some 8, some 12]) ∧
-    (specTrace [2, 3, 3] (-1) 1 2).map (fun r => (r.shape, (r.get [1]).map (fun i => computeOffset i (strides [2, 3, 3])))) =
-      some ([2], [12, 16]) := by decide
+-- negative offset: rows shifted
+example : (specTrace [3, 4] (-1) 0 1).map (·.get []) = some [[1, 0], [2, 1]] := by decide
+example : (trace [2, 3, 3] (-1) 1 2).map (fun r => (r.shape, r.get [0], r.get [1])) =
+    some ([2], [some 3, some 7], [some 12, some 16]) := by decide
 
 /-! ### tensordot -/
 
